@@ -259,3 +259,155 @@ def uniform_penalty_method():
                         (('after', r'let mut quad_sum[^;]*;'), '''
         let ghost cs0 = self.constraints@; let ghost rs0 = self.removed_constraints@; let ghost nr0 = self.removed_constraints.len() as int;
         proof { lemma_next_or_zero(self.decision_variables@, id_base); }''')])
+
+
+# ---------------------------------------------------------------- C13
+SLACK_STUBS = '''impl Instance {
+    // Instance::get_kinds (iterator collect into a HashMap; last definition wins)
+    #[verifier::external_body] pub fn get_kinds(&self) -> (r: HashMap<VariableID, Kind>) ensures kinds_of(self.decision_variables@, r@) { unimplemented!() }
+}
+impl Function {
+    // Function::used_decision_variable_ids (iterator collects, verified in C08)
+    #[verifier::external_body] pub fn used_decision_variable_ids(&self) -> (r: BTreeSet<u64>) ensures r@ == fn_ids(*self) { unimplemented!() }
+    // Function::content_factor (C16): a positive finite multiplier that makes every coefficient integral, hence a*f integer-valued on integer points
+    #[verifier::external_body] pub fn content_factor(&self) -> (r: Result<F64, VErr>)
+        ensures r is Ok ==> r->Ok_0@ is Fin && r->Ok_0@->Fin_0 > 0real
+            && forall|m: Map<u64, F64>| #![trigger fn_val(*self, m)] int_state(m, fn_ids(*self)) ==> is_intr(r->Ok_0@->Fin_0 * fn_val(*self, m))
+    { unimplemented!() }
+    // Function::evaluate_bound (C16): interval enclosure over the box
+    #[verifier::external_body] pub fn evaluate_bound(&self, bounds: &Bounds) -> (r: Bound)
+        requires bounds_wf(bounds@)
+        ensures r.wf(), fn_fin(*self) ==> forall|m: Map<u64, F64>| #![trigger fn_val(*self, m)] in_box(m, bounds@, fn_ids(*self)) ==> contains(r, fn_val(*self, m))
+    { unimplemented!() }
+}
+// f64 * Function (impl_mul_inverse!(f64, Function)) and Function + Linear (impl_add_from!(Function, Linear)): decided in C02
+impl MulSpecImpl<Function> for F64 { open spec fn obeys_mul_spec() -> bool { false } open spec fn mul_req(self, rhs: Function) -> bool { rhs.function is Some } open spec fn mul_spec(self, rhs: Function) -> Function { arbitrary() } }
+impl core::ops::Mul<Function> for F64 { type Output = Function;
+    #[verifier::external_body] fn mul(self, rhs: Function) -> (r: Function) ensures r == fn_scale(self, rhs), is_scaled(r, self, rhs) { unimplemented!() } }
+impl AddSpecImpl<Linear> for Function { open spec fn obeys_add_spec() -> bool { false } open spec fn add_req(self, rhs: Linear) -> bool { self.function is Some } open spec fn add_spec(self, rhs: Linear) -> Function { arbitrary() } }
+impl core::ops::Add<Linear> for Function { type Output = Function;
+    #[verifier::external_body] fn add(self, rhs: Linear) -> (r: Function) ensures r == fn_add_linear(self, rhs), is_sum_linear(r, self, rhs) { unimplemented!() } }
+impl Bound {
+    // Bound::as_integer_bound (C16) - ASSUMPTION A3: the call returns, i.e. the interval contains an integer (it panics otherwise)
+    #[verifier::external_body] pub fn as_integer_bound(&self) -> (r: Bound)
+        requires self.wf()
+        ensures r.wf(), forall|k: real| #![trigger contains(*self, k)] contains_int(*self, k) ==> contains_int(r, k),
+            r.lower@ is Fin ==> is_int(r.lower@->Fin_0), r.upper@ is Fin ==> is_int(r.upper@->Fin_0),
+    { unimplemented!() }
+}
+'''
+
+
+def linear_single_term():
+    return Unit('Linear::single_term', 'linear.rs', 'single_term', impl=r'impl Linear \{', wrap=('impl Linear {', '}'),
+                sig='pub fn single_term(id: u64, coefficient: f64) -> Self',
+                header='''pub fn single_term(id: u64, coefficient: F64) -> (r: Self)
+        ensures r.terms@ == seq![LinearTerm { id, coefficient }], r.constant@ == XR::Fin(0real),''')
+
+
+def v1bound_from_bound():
+    return Unit('From<Bound> for v1::Bound', 'bound.rs', 'from', impl=r'impl From<Bound> for v1::Bound \{', sig='fn from(bound: Bound) -> Self',
+                pre='impl vstd::std_specs::convert::FromSpecImpl<Bound> for v1::Bound { open spec fn obeys_from_spec() -> bool { false } open spec fn from_spec(v: Bound) -> Self { arbitrary() } }\n',
+                wrap=('impl From<Bound> for v1::Bound {', '}'),
+                header='''fn from(bound: Bound) -> (r: Self)
+        ensures r.lower == bound.lower, r.upper == bound.upper,''')
+
+
+SLACK_REQ = '''requires
+        // observations outside the property: no id overflow; operator code panics on an unset oneof
+        forall|i: int| 0 <= i < old(self).decision_variables.len() ==> (#[trigger] old(self).decision_variables[i]).id < u64::MAX - 1,
+        forall|i: int| 0 <= i < old(self).constraints.len() ==> ((#[trigger] old(self).constraints[i]).function is Some ==> old(self).constraints[i].function->Some_0.function is Some),'''
+SLACK_REJECT = '''        // rejected WITHOUT modifying the instance
+        r is Err ==> same_inst(*final(self), *old(self)),
+        // unknown id, not an inequality (equality code 2 = LessThanOrEqualToZero), no function, or a used variable that is undefined or not integer/binary
+        !has_c(old(self).constraints@, constraint_id) ==> r is Err,
+        has_c(old(self).constraints@, constraint_id) ==> ({ let c = old(self).constraints[first_active(old(self).constraints@, constraint_id)];
+            &&& (c.equality != 2 ==> r is Err)
+            &&& (c.function is None ==> r is Err)
+            &&& (c.function is Some && !all_int_kind(old(self).decision_variables@, fn_ids(c.function->Some_0)) ==> r is Err) }),'''
+SLACK_COMMON_SUBS = dict(
+    closures=[dict(params='id', typed='id: &u64', ret='u64', requires='*id < u64::MAX', ensures='ret == *id + 1'),
+              dict(params='c', typed='c: &Constraint', ret='bool', ensures='ret == (c.id == constraint_id)')],
+)
+
+
+def convert_inequality():
+    return Unit('Instance::convert_inequality_to_equality_with_integer_slack', F, 'convert_inequality_to_equality_with_integer_slack', impl=I, wrap=W,
+                sig='pub fn convert_inequality_to_equality_with_integer_slack( &mut self, constraint_id: u64, max_integer_range: u64, ) -> Result<()>',
+                header='''#[verifier::loop_isolation(false)]
+pub fn convert_inequality_to_equality_with_integer_slack(&mut self, constraint_id: u64, max_integer_range: u64) -> (r: Result<(), VErr>)
+    ''' + SLACK_REQ + '''
+    ensures
+''' + SLACK_REJECT + '''
+        r is Ok ==> ({ let i = first_active(old(self).constraints@, constraint_id); let c = old(self).constraints[i]; let f = c.function->Some_0;
+            ||| // interval analysis shows the inequality always holds: moved to the removed constraints, unchanged
+                (final(self).constraints@ == old(self).constraints@.remove(i)
+                 && final(self).removed_constraints.len() == old(self).removed_constraints.len() + 1
+                 && final(self).removed_constraints@.last().constraint == Some(c)
+                 && final(self).decision_variables == old(self).decision_variables
+                 && exists|a: F64| #![trigger moved_ok(*old(self), constraint_id, a)] moved_ok(*old(self), constraint_id, a))
+            ||| // otherwise: one new integer slack variable s in [0, -L] with a fresh id, and the constraint becomes f + s/a = 0 (same id)
+                (exists|a: F64, big_l: real| #![trigger slack_post(*old(self), *final(self), constraint_id, max_integer_range, a, big_l)]
+                    slack_post(*old(self), *final(self), constraint_id, max_integer_range, a, big_l)) }),''',
+                closures=SLACK_COMMON_SUBS['closures'],
+                subs=[('self.defined_ids().last().map(', 'opt_map(btreeset_last(&self.defined_ids()), '),
+                      ('max_integer_range as F64', 'u64_as_f64(max_integer_range)')],
+                rsubs=[(r'for id in function\.used_decision_variable_ids\(\) \{', 'for id in btreeset_to_vec(&function.used_decision_variable_ids()) {', 1)],
+                loops=[dict(kind='for', it='it_1', rebind='*__e', body_proof=' proof { assert(*__e == __h1[it_1.index@ as int]); }', inv='''invariant
+                forall|j: int| 0 <= j < it_1.index@ ==> int_kind_id(old(self).decision_variables@, #[trigger] __h1[j]),''')],
+                proofs=[(('before', r'let next_id ='), '''proof {
+            let dvs = self.decision_variables@; let all = dv_ids(dvs, dvs.len() as int);
+            assert forall|y: u64| all.contains(y) implies y < u64::MAX - 1 by { lemma_dv_ids_mem(dvs, dvs.len() as int, y); }
+            if dvs.len() > 0 { lemma_dv_ids_mem(dvs, dvs.len() as int, dvs[0].id); assert(all.contains(dvs[0].id)); }
+            else { assert forall|y: u64| !all.contains(y) by { lemma_dv_ids_mem(dvs, 0, y); } }
+        }
+        '''),
+                        (('after', r'let next_id =[^;]*;'), '''
+        proof { lemma_next_or_zero(self.decision_variables@, next_id); }'''),
+                        (('after', r'let bound = af\.evaluate_bound\(&bounds\)\.as_integer_bound\(\);'), '''
+        let ghost big_l = match bound.lower@ { XR::Fin(v) => v, _ => 0real };'''),
+                        (('before', r'self\.relax_constraint\('), '''proof { assert(self.constraints@ =~= old(self).constraints@); assert(moved_ok(*old(self), constraint_id, a)); }
+            '''),
+                        (('before', r'Ok\(\(\)\)\s*\}\s*$'), '''proof { assert(slack_post(*old(self), *self, constraint_id, max_integer_range, a, big_l)); }
+        ''')])
+
+
+def add_integer_slack():
+    return Unit('Instance::add_integer_slack_to_inequality', F, 'add_integer_slack_to_inequality', impl=I, wrap=W,
+                sig='pub fn add_integer_slack_to_inequality( &mut self, constraint_id: u64, slack_upper_bound: u64, ) -> Result<Option<f64>>',
+                header='''#[verifier::loop_isolation(false)]
+pub fn add_integer_slack_to_inequality(&mut self, constraint_id: u64, slack_upper_bound: u64) -> (r: Result<Option<F64>, VErr>)
+    ''' + SLACK_REQ + '''
+    ensures
+''' + SLACK_REJECT + '''
+        r is Ok ==> ({ let i = first_active(old(self).constraints@, constraint_id); let c = old(self).constraints[i]; let f = c.function->Some_0;
+            ||| // always satisfied: moved to the removed constraints unchanged, nothing reported
+                (r->Ok_0 is None && final(self).constraints@ == old(self).constraints@.remove(i)
+                 && final(self).removed_constraints.len() == old(self).removed_constraints.len() + 1
+                 && final(self).removed_constraints@.last().constraint == Some(c)
+                 && final(self).decision_variables == old(self).decision_variables
+                 && always_le0(old(self).decision_variables@, f, false))
+            ||| // otherwise a bounded integer slack term b*s is added and b is reported
+                (exists|lower: XR, bb: F64| #![trigger slack_add_post(*old(self), *final(self), constraint_id, slack_upper_bound, bb, lower)]
+                    r->Ok_0 == Some(bb) && slack_add_post(*old(self), *final(self), constraint_id, slack_upper_bound, bb, lower)) }),''',
+                closures=SLACK_COMMON_SUBS['closures'],
+                subs=[('self.defined_ids().last().map(', 'opt_map(btreeset_last(&self.defined_ids()), ')],
+                rsubs=[(r'for id in f\.used_decision_variable_ids\(\) \{', 'for id in btreeset_to_vec(&f.used_decision_variable_ids()) {', 1),
+                       (r'slack_upper_bound as F64', 'u64_as_f64(slack_upper_bound)', 2)],
+                loops=[dict(kind='for', it='it_1', rebind='*__e', body_proof=' proof { assert(*__e == __h1[it_1.index@ as int]); }', inv='''invariant
+                forall|j: int| 0 <= j < it_1.index@ ==> int_kind_id(old(self).decision_variables@, #[trigger] __h1[j]),''')],
+                proofs=[(('before', r'let slack_id ='), '''proof {
+            let dvs = self.decision_variables@; let all = dv_ids(dvs, dvs.len() as int);
+            assert forall|y: u64| all.contains(y) implies y < u64::MAX - 1 by { lemma_dv_ids_mem(dvs, dvs.len() as int, y); }
+            if dvs.len() > 0 { lemma_dv_ids_mem(dvs, dvs.len() as int, dvs[0].id); assert(all.contains(dvs[0].id)); }
+            else { assert forall|y: u64| !all.contains(y) by { lemma_dv_ids_mem(dvs, 0, y); } }
+        }
+        '''),
+                        (('after', r'let slack_id =[^;]*;'), '''
+        proof { lemma_next_or_zero(self.decision_variables@, slack_id); }'''),
+                        (('after', r'let bound = f\.evaluate_bound\(&bounds\);'), '''
+        let ghost lower0 = bound.lower@;'''),
+                        (('before', r'self\.relax_constraint\('), '''proof { assert(self.constraints@ =~= old(self).constraints@); assert(always_le0(old(self).decision_variables@, *f, false)); }
+            '''),
+                        (('before', r'Ok\(Some\(b\)\)\s*\}\s*$'), '''proof { assert(slack_add_post(*old(self), *self, constraint_id, slack_upper_bound, b, lower0)); }
+        ''')])
